@@ -59,7 +59,8 @@ def spec_sets(w, p, estimands):
     zero = z3.If(bw >= 0, bw, -bw) <= z3.RealVal("1e-8")  # np.isclose(x, 0)
     tf = c["turnout_factor"]
     cand = z3.And(inData, pev >= thr)  # reporting candidates
-    n_cand = frames.count_of(w.root, cand)
+    # the outlier models are fitted on (and enabled by the number of) reporting candidates that are not blocklisted
+    n_cand = frames.count_of(w.root, z3.And(cand, z3.Not(blk)))
     en_t = z3.And(p["fit_t"].t, n_cand > 20)
     en_m = z3.And(p["fit_m"].t, n_cand > 20) if "margin" in estimands else z3.BoolVal(False)
     strange = z3.Or(tf <= p["lo"].t, tf >= p["hi"].t)
